@@ -285,7 +285,7 @@ VERIF_ERR = ('postcondition not satisfied', 'precondition not satisfied', 'asser
              'could not prove termination', 'recommendation not met', 'possible bit shift', 'index out of bounds',
              'loop invariant', 'failed this postcondition', 'failed precondition', 'unreachable', 'possible truncation',
              'invariant not satisfied before loop', 'invariant not satisfied at end of loop body', 'possible overflow',
-             'cannot show invariant', 'constructed value may fail')
+             'cannot show invariant', 'constructed value may fail', 'precondition not met')
 RESOURCE_ERR = ('Resource limit', 'rlimit', 'timed out', 'Verus Internal Error')
 
 
@@ -337,7 +337,10 @@ def classify(res, info, unit_name):
             where = fn_of_line(l)
             if where:
                 break
-        is_verif = any(k in msg for k in VERIF_ERR)
+        # Verus only reaches the solver when the front end accepted the file: once it reports verification results without a
+        # VIR error, every error diagnostic is a failed obligation, whatever its wording
+        ran = (vr.get('verified', 0) + vr.get('errors', 0)) > 0 and not vr.get('encountered-vir-error')
+        is_verif = any(k in msg for k in VERIF_ERR) or (ran and vr.get('errors', 0) > 0)
         is_res = any(k in msg for k in RESOURCE_ERR)
         rec = dict(msg=msg, gen_line=ln, text=txt, fn=where[0] if where else None,
                    labels=[(s.get('label') or '') + ' @' + str(s['line_start']) + ': ' + (s['text'][0]['text'].strip() if s.get('text') else '') for s in spans],
